@@ -77,3 +77,21 @@ def describe(prop, slug):
 
 def _f(w):
     return w.get("features") or {}
+
+
+@matcher("inplace-commit-before-dependant-preparer")
+def _m_inplace_dependant_preparer(w):
+    """
+    C04: an in-place operation commits its own attribute and then resets an `invalidated_by` dependant, whose default is
+    re-prepared by a user preparer; if that preparer raises, the primary change stays. Narrow: only the receiver changed, the
+    fault was injected in a preparer / item preparer of a *dependant* attribute (not an attribute the call targets).
+    """
+    f = _f(w)
+    return (
+        w["monitor"] == "raise_leaves_state_unchanged"
+        and f.get("inplace") is True
+        and f.get("has_invalidated_by") is True
+        and f.get("callback") in ("prep", "iprep")
+        and f.get("callback_on_invalidated_dependant") is True
+        and f.get("changed") == ["recv"]
+    )
